@@ -14,6 +14,7 @@ import (
 	"math/rand"
 	"os"
 	"path/filepath"
+	"runtime"
 	"runtime/debug"
 	"sort"
 	"strings"
@@ -266,6 +267,46 @@ func (r *Run) Guard(c *Case, what string, caseData any, f func()) (panicked bool
 	}()
 	f()
 	return false
+}
+
+// GuardWithin is Guard with a bounded-progress watchdog: f runs in a goroutine of its own, and if it has not finished
+// after budget the case is abandoned (the goroutine is left behind) and hung is true. The caller decides what an
+// unfinished case means for its property (a violation where the statement promises completion, inconclusive elsewhere).
+func (r *Run) GuardWithin(c *Case, what string, caseData any, budget time.Duration, f func()) (panicked, hung bool) {
+	done := make(chan bool, 1)
+	go func() { done <- r.Guard(c, what, caseData, f) }()
+	select {
+	case p := <-done:
+		return p, false
+	case <-time.After(budget):
+		return false, true
+	}
+}
+
+// CaseBudget is the watchdog of one scripted case: several operations, each of which may take an operation time-out.
+func CaseBudget() time.Duration { return 6*OpTimeout() + 10*time.Second }
+
+// Unfinished records that a case did not finish: inconclusive (for properties whose statement promises completion the
+// caller reports a violation instead), with the stacks of the goroutines that are inside the repository's code.
+func (r *Run) Unfinished(what string) {
+	r.Inconclusive(fmt.Sprintf("%s did not finish within the watchdog (%s); goroutines inside the repository:\n%s", what, CaseBudget(), RepoStacks(3000)))
+}
+
+// RepoStacks returns the stacks of the goroutines that are inside the repository's code right now (at most max bytes).
+func RepoStacks(max int) string {
+	buf := make([]byte, 1<<20)
+	buf = buf[:runtime.Stack(buf, true)]
+	var out []string
+	for _, g := range strings.Split(string(buf), "\n\n") {
+		if strings.Contains(g, "github.com/theparanoids/ysshra/") && strings.Contains(strings.ReplaceAll(g, "github.com/theparanoids/ysshra/verifharness", ""), "github.com/theparanoids/ysshra/") {
+			out = append(out, g)
+		}
+	}
+	s := strings.Join(out, "\n\n")
+	if len(s) > max {
+		s = s[:max]
+	}
+	return s
 }
 
 // panicSite returns the innermost function of the repository on a stack
